@@ -123,6 +123,7 @@ class Model:
 
     # ------------------------------------------------------------------
     def _load(self):
+        parsed = {}
         for fn in sorted(os.listdir(self.src_dir)):
             if not fn.endswith('.py'):
                 continue
@@ -137,6 +138,14 @@ class Model:
             rel = os.path.relpath(path, self.repo)
             for n in ast.walk(tree):
                 n._file = rel
+            parsed[name] = (path, src, tree)
+        # helpers the pinned tree does not know are inlined (normalise.py)
+        from . import normalise
+        self.norm = normalise.Normaliser(
+            {k: v[2] for k, v in parsed.items()},
+            normalise.known_functions()).run()
+        for name, (path, src, tree) in parsed.items():
+            for n in ast.walk(tree):
                 for c in ast.iter_child_nodes(n):
                     c._parent = n
             m = ModuleInfo(name, path, src, tree)
